@@ -48,6 +48,7 @@ EXPLANATION = (
     'of the local backend (receiver provenance + dominance + handler shape + constant agreement between the temporary-name '
     'generator and the lister). Rules C03.R1-R5 of DESIGN.md.'
     ' Added with the seeded-defect rounds: Local.clean removes only directories that hold nothing (every scanned entry reported, non-directories never empty), every upload publishes, verified-bytes typestate of the cache (a truncated entry is discarded), local listing error discipline, skip-upload only on a backend answer.'
+    ' Round 6: per-run stop flag of snapshot, bounded re-raising retry layer of every adapter, Local.clean removes with rmdir only.'
 )
 NOT_DECIDED = 'atomicity inside os.replace / a remote PUT (trusted base); the state after every concrete crash point is not executed'
 TRUSTED = ['os.replace is atomic on the target file system', 'remote services publish an object atomically at the end of an upload', 'CPython ast']
